@@ -326,6 +326,31 @@ func doneWait() time.Duration {
 	return 15 * time.Second
 }
 
+// serveConnStacks summarises where the server's connection goroutines are (diagnostics for slow shutdowns).
+func serveConnStacks() string {
+	var out []string
+	for _, g := range strings.Split(mon.Stacks(), "\n\n") {
+		if !strings.Contains(g, "serveConnCounted") {
+			continue
+		}
+		lines := strings.Split(g, "\n")
+		var fn []string
+		for _, l := range lines[1:] {
+			if !strings.HasPrefix(l, "\t") && len(fn) < 6 {
+				if j := strings.LastIndex(l, "("); j > 0 {
+					l = l[:j]
+				}
+				fn = append(fn, l[strings.LastIndex(l, "/")+1:])
+			}
+		}
+		out = append(out, lines[0]+" "+strings.Join(fn, " < "))
+		if len(out) >= 6 {
+			break
+		}
+	}
+	return fmt.Sprintf("%d shown: %s", len(out), strings.Join(out, " | "))
+}
+
 func waitCh(ch <-chan struct{}, d time.Duration) bool {
 	select {
 	case <-ch:
@@ -536,7 +561,9 @@ func runCase(r *mon.Run, i int) {
 	case <-time.After(slackOK):
 	}
 	slow := false
+	slowWhy := ""
 	if !returned {
+		slowWhy = serveConnStacks()
 		// Done() must be closed by now if Shutdown is in progress; done-waiting handlers hold Shutdown otherwise
 		if !waitCh(doneCh, doneWait()) {
 			doneBroken.Add(1)
@@ -560,7 +587,7 @@ func runCase(r *mon.Run, i int) {
 		return
 	}
 	if slow {
-		fail(fmt.Sprintf("Shutdown returned %v after the last release (> %v): slow, not judged as hang", res.done.Sub(tRelease), slackOK))
+		fail(fmt.Sprintf("Shutdown returned %v after the last release (> %v): slow, not judged as hang; connection goroutines at %v: %s", res.done.Sub(tRelease), slackOK, slackOK, slowWhy))
 	}
 	r.Event("shutdown_returned", 1)
 	if stalled != "" {
